@@ -31,15 +31,17 @@ Proof. exact next_ids_unfinished_none. Qed.
 Print Assumptions C01_unfinished_enables_nothing.
 
 (** --- engine level (Engine: persisted task and instance statuses, the parser's tree and event queue, the
-    executor's registered runs and the deliveries under way, the retry command in its phases, crash and
-    restart, the watchdog - one instance as a transition system at the granularity of single store writes
-    and goroutine hand-overs; scope: tasks without pre-checks, failures in every phase, retry commands
-    also while the instance is busy, no-op commands).  The statements hold for every history in which no
-    delivery is accepted with a stale snapshot ([validate = true], the other switches arbitrary); the code
-    as it is admits such a delivery after a retry command re-initialised a busy instance, and then every
-    one of them fails ([..._unvalidated_refuted]; known finding F-dup-push, reproduced on the real code).
-    Journals of the real engine in this scope are checked to be histories of Engine
-    ([EngineCheck.check_core]) and the hypothesis is monitored on them. --- *)
+    pushes in progress with their pre-check verdicts, the executor's registered runs and the deliveries
+    under way, the retry and continue commands in their phases, crash and restart, the watchdog - one
+    instance as a transition system at the granularity of single store writes and goroutine hand-overs;
+    scope: pre-checks (skip / block), failures in every phase, retry and continue commands also while the
+    instance is busy, no-op commands; not: cancel, failing writes).  The statements hold for every history
+    in which no delivery is accepted, and no pre-check verdict written, on the strength of a stale snapshot
+    or next to another delivery of the same task ([validate = true], the other switches arbitrary); the code
+    as it is admits both after a retry command re-initialised a busy instance, and then every one of them
+    fails ([..._refuted]; known finding F-dup-push, reproduced on the real code).  Journals of the real
+    engine in this scope are checked to be histories of Engine ([EngineCheck.check_core]) and the hypothesis
+    is monitored on them. --- *)
 
 Theorem C01_engine_dependency_order : forall tasks deps cq nn ls s t s',
   run tasks deps true cq nn boot ls = Some s -> step tasks deps true cq nn s (MainStart t) = Some s' ->
@@ -50,13 +52,13 @@ Proof.
 Qed.
 Print Assumptions C01_engine_dependency_order.
 
-(** and a dependency that is recorded success stays so *)
+(** and a dependency that is recorded finished (success or skipped) keeps that status *)
 Theorem C01_engine_dependency_stays_done : forall tasks deps cq nn ls s l s' d,
   run tasks deps true cq nn boot ls = Some s -> step tasks deps true cq nn s l = Some s' ->
-  store s d = SSuccess -> store s' d = SSuccess.
+  done (store s d) = true -> store s' d = store s d.
 Proof.
   intros tasks deps cq nn ls s l s' d Hr Hs.
-  exact (success_final tasks deps cq nn s l s' d (inv_reach tasks deps cq nn ls boot s (inv_boot deps) Hr) Hs).
+  exact (done_final tasks deps cq nn s l s' d (inv_reach tasks deps cq nn ls boot s (inv_boot deps) Hr) Hs).
 Qed.
 Print Assumptions C01_engine_dependency_stays_done.
 
